@@ -190,7 +190,83 @@ static int op_xmss_keygen(opctx_t *c, obuf_t *o) {
 	sm3_xmss_key_cleanup(&k);
 	return r;
 }
+/* ---- final wave: the rarely used low-level entry points, called directly */
+static int op_sm2_do_sign(opctx_t *c, obuf_t *o) {
+	SM2_SIGNATURE sg;
+	if (sm2_do_sign(&c->sm2, c->dgst, &sg) != 1) return -1;
+	ob_put(o, "sig", &sg, sizeof sg); set_eph(c, sg.r, 32);
+	if (sm2_do_verify(&c->sm2, c->dgst, &sg) != 1) return -2;
+	return 1;
+}
+static int op_sm2_sign_fixlen(opctx_t *c, obuf_t *o) {
+	uint8_t sig[80]; SM2_SIGNATURE s; const uint8_t *p = sig; size_t l = 71;
+	if (sm2_sign_fixlen(&c->sm2, c->dgst, 71, sig) != 1) return -1;
+	ob_put(o, "sig", sig, 71);
+	if (sm2_signature_from_der(&s, &p, &l) == 1) set_eph(c, s.r, 32);
+	if (sm2_verify(&c->sm2, c->dgst, sig, 71) != 1) return -2;
+	return 1;
+}
+static int op_sm2_do_encrypt(opctx_t *c, obuf_t *o) {
+	SM2_CIPHERTEXT ct; uint8_t pt[SM2_MAX_PLAINTEXT_SIZE]; size_t pl = 0;
+	memset(&ct, 0x5c, sizeof ct);
+	if (sm2_do_encrypt(&c->sm2, c->msg, c->msglen, &ct) != 1) return -1;
+	ob_put(o, "ct", &ct, 64 + 32 + 1 + c->msglen); set_eph(c, &ct.point, 64);
+	if (sm2_do_decrypt(&c->sm2, &ct, pt, &pl) != 1 || pl != c->msglen || memcmp(pt, c->msg, pl)) return -2;
+	return 1;
+}
+static int op_sm2_do_encrypt_fixlen(opctx_t *c, obuf_t *o) {
+	SM2_CIPHERTEXT ct; uint8_t pt[SM2_MAX_PLAINTEXT_SIZE]; size_t pl = 0;
+	memset(&ct, 0x5c, sizeof ct);
+	if (sm2_do_encrypt_fixlen(&c->sm2, c->msg, c->msglen, SM2_ciphertext_typical_point_size, &ct) != 1) return -1;
+	ob_put(o, "ct", &ct, 64 + 32 + 1 + c->msglen); set_eph(c, &ct.point, 64);
+	if (sm2_do_decrypt(&c->sm2, &ct, pt, &pl) != 1 || pl != c->msglen || memcmp(pt, c->msg, pl)) return -2;
+	return 1;
+}
+static int op_sm2_encrypt_fixlen(opctx_t *c, obuf_t *o) {
+	uint8_t ct[SM2_MAX_CIPHERTEXT_SIZE]; size_t cl = 0; uint8_t pt[SM2_MAX_PLAINTEXT_SIZE]; size_t pl = 0;
+	if (sm2_encrypt_fixlen(&c->sm2, c->msg, c->msglen, SM2_ciphertext_typical_point_size, ct, &cl) != 1) return -1;
+	ob_put(o, "ct", ct, cl); set_eph(c, ct, cl < 72 ? cl : 72);
+	if (sm2_decrypt(&c->sm2, ct, cl, pt, &pl) != 1 || pl != c->msglen || memcmp(pt, c->msg, pl)) return -2;
+	return 1;
+}
+static int op_sm2_fast_sign_pool(opctx_t *c, obuf_t *o) {
+	/* the pre-compute interface used without SM2_SIGN_CTX: fill a pool, sign with every entry once */
+	SM2_SIGN_PRE_COMP pre[SM2_SIGN_PRE_COMP_COUNT]; sm2_z256_t fp; SM2_SIGNATURE sg; int i, j; uint8_t rs[SM2_SIGN_PRE_COMP_COUNT][32];
+	memset(pre, 0x5c, sizeof pre);
+	if (sm2_fast_sign_pre_compute(pre) != 1) return -1;
+	if (sm2_fast_sign_compute_key(&c->sm2, fp) != 1) return -9;
+	for (i = 0; i < SM2_SIGN_PRE_COMP_COUNT; i++) {
+		if (sm2_fast_sign(fp, &pre[i], c->dgst, &sg) != 1) return -1;
+		if (sm2_do_verify(&c->sm2, c->dgst, &sg) != 1) return -2;
+		memcpy(rs[i], sg.r, 32);
+		for (j = 0; j < i; j++) if (!memcmp(rs[j], rs[i], 32)) return -3;
+		ob_put(o, "sig", &sg, sizeof sg);
+	}
+	set_eph(c, rs, 512);
+	return 1;
+}
+static int op_sm9_do_sign(opctx_t *c, obuf_t *o) {
+	SM3_CTX h; SM9_SIGNATURE sg;
+	if (prepare9(c) != 1) return -9;
+	sm3_init(&h); sm3_update(&h, c->msg, c->msglen);
+	if (sm9_do_sign(&c->s9sk, &h, &sg) != 1) return -1;
+	ob_put(o, "sig", &sg, sizeof sg); set_eph(c, &sg, sizeof sg < 512 ? sizeof sg : 512);
+	sm3_init(&h); sm3_update(&h, c->msg, c->msglen);
+	if (sm9_do_verify(&c->s9sm, ID_A, strlen(ID_A), &h, &sg) != 1) return -2;
+	return 1;
+}
+static int op_sm9_kem(opctx_t *c, obuf_t *o) {
+	uint8_t k1[32], k2[32], b[65]; SM9_Z256_POINT C1;
+	if (prepare9(c) != 1) return -9;
+	if (sm9_kem_encrypt(&c->s9em, ID_B, strlen(ID_B), 32, k1, &C1) != 1) return -1;
+	sm9_z256_point_to_uncompressed_octets(&C1, b); ob_put(o, "C", b, 65); ob_put(o, "K", k1, 32); set_eph(c, b, 65);
+	if (sm9_kem_decrypt(&c->s9ekB, ID_B, strlen(ID_B), &C1, 32, k2) != 1 || memcmp(k1, k2, 32)) return -2;
+	return 1;
+}
 static const sysop_t EXTRA_OPS[] = {
+	{"sm2_do_sign", op_sm2_do_sign, 1, 0}, {"sm2_sign_fixlen", op_sm2_sign_fixlen, 1, 0}, {"sm2_do_encrypt", op_sm2_do_encrypt, 1, 0},
+	{"sm2_do_encrypt_fixlen", op_sm2_do_encrypt_fixlen, 1, 0}, {"sm2_encrypt_fixlen", op_sm2_encrypt_fixlen, 1, 0}, {"sm2_fast_sign_pool", op_sm2_fast_sign_pool, 1, 0},
+	{"sm9_do_sign", op_sm9_do_sign, 1, 1}, {"sm9_kem", op_sm9_kem, 1, 1},
 	{"sm9_sign_master_keygen", op_sm9_sign_master_keygen, 1, 1}, {"sm9_enc_master_keygen", op_sm9_enc_master_keygen, 1, 1},
 	{"sm9_smk_info_der", op_sm9_smk_info_der, 1, 1}, {"sm9_smk_info_pem", op_sm9_smk_info_pem, 1, 1},
 	{"sm9_sk_info_der", op_sm9_sk_info_der, 1, 1}, {"sm9_sk_info_pem", op_sm9_sk_info_pem, 1, 1},
@@ -268,10 +344,11 @@ static int ctx_step(const char *kind, const sysop_t *op, ctxs_t *x, obuf_t *o, u
 	return rc;
 }
 static void do_recover(char **w) {
-	const char *kind = w[1]; const sysop_t *op = find_op2(kind); uint64_t seed = strtoull(w[2], NULL, 10);
+	const char *kind = !strcmp(w[1], "sm2_sign_ctx_reinit") ? "sm2_sign_ctx" : w[1]; const sysop_t *op = find_op2(kind); uint64_t seed = strtoull(w[2], NULL, 10);
 	int pre = atoi(w[3]), post = atoi(w[5]), i, j, n = 0, attempt; long failrel = atol(w[4]);
 	ctxs_t *x = malloc(sizeof *x); obuf_t o; uint8_t (*eph)[32]; int rc;
-	int is_ctx = !strcmp(kind, "sm2_sign_ctx") || !strcmp(kind, "sm2_enc_ctx") || !strcmp(kind, "sm2_sign_ctx_fixlen") || !strcmp(kind, "sm9_sign_ctx");
+	int reinit = !strcmp(w[1], "sm2_sign_ctx_reinit");
+	int is_ctx = reinit || !strcmp(kind, "sm2_sign_ctx") || !strcmp(kind, "sm2_enc_ctx") || !strcmp(kind, "sm2_sign_ctx_fixlen") || !strcmp(kind, "sm9_sign_ctx");
 	if ((!is_ctx && !op) || pre < 0 || post < 0 || pre + post > 4000) { printf("ERR usage"); free(x); return; }
 	prep(seed >> 8); ob_init(&o);
 	if (op && op->heavy) prepare9(C);
@@ -281,6 +358,12 @@ static void do_recover(char **w) {
 	if (!strcmp(kind, "sm2_enc_ctx") && sm2_encrypt_init(&x->enc) != 1) { printf("ERR init"); goto done; }
 	for (i = 0; i < pre; i++) { rc = ctx_step(kind, op, x, &o, eph[n]); if (rc != 1) { printf("BROKEN at=%d rc=%d phase=before", i, rc); goto done; } n++; }
 	ent.fail_at = ent.draws + failrel;                                     /* the failing draw, relative to here */
+	if (reinit) {
+		/* re-initialisation of the USED context with a one-shot failure inside its pool fill, then a healthy re-initialisation */
+		attempt = sm2_sign_init(&x->sign, &C->sm2, SM2_DEFAULT_ID, SM2_DEFAULT_ID_LENGTH) == 1 ? 2 : -1;
+		ent.fail_at = -1;
+		if (attempt == -1 && sm2_sign_init(&x->sign, &C->sm2, SM2_DEFAULT_ID, SM2_DEFAULT_ID_LENGTH) != 1) { printf("BROKEN at=%d rc=-1 phase=re-init", pre); goto done; }
+	} else
 	attempt = ctx_step(kind, op, x, &o, eph[n]);
 	if (attempt == 1) n++;                                                 /* the failing draw was not reached: an ordinary operation */
 	else if (attempt == -2) { printf("BROKEN at=%d rc=-2 phase=failing-attempt (success reported, output invalid)", pre); goto done; }
